@@ -132,7 +132,9 @@ theorem set_scalar {d : Doc} {F : Forest} {l : Loc} {a : Arg} (w : WFG d F) (hl 
       simp only [Doc.saveString] at hal
       split at hal
       · simp at hal
-      · generalize d.pl.alloc (s.length + d.strOverhead) = q at hal
+      · split at hal
+        · simp only [Prod.mk.injEq, true_and] at hal; subst hal; simp at hok
+        generalize d.pl.alloc (s.length + d.strOverhead) = q at hal
         obtain ⟨ok, pl⟩ := q
         simp only at hal
         split at hal
@@ -152,7 +154,9 @@ theorem set_scalar {d : Doc} {F : Forest} {l : Loc} {a : Arg} (w : WFG d F) (hl 
       simp only [Doc.saveString] at hal
       split at hal
       · simp at hal
-      · generalize d.pl.alloc (s.length + d.strOverhead) = q at hal
+      · split at hal
+        · simp only [Prod.mk.injEq, true_and] at hal; subst hal; simp at hok
+        generalize d.pl.alloc (s.length + d.strOverhead) = q at hal
         obtain ⟨ok, pl⟩ := q
         simp only at hal
         split at hal
@@ -228,7 +232,9 @@ theorem set_scalar_str {d : Doc} {F : Forest} {l : Loc} {a : Arg} (w : WFG d F) 
       simp only [Doc.saveString] at hal
       split at hal
       · simp at hal
-      · generalize d.pl.alloc (s.length + d.strOverhead) = q at hal
+      · split at hal
+        · simp only [Prod.mk.injEq, true_and] at hal; subst hal; simp at hok
+        generalize d.pl.alloc (s.length + d.strOverhead) = q at hal
         obtain ⟨ok, pl⟩ := q
         simp only at hal
         split at hal
@@ -245,7 +251,9 @@ theorem set_scalar_str {d : Doc} {F : Forest} {l : Loc} {a : Arg} (w : WFG d F) 
       simp only [Doc.saveString] at hal
       split at hal
       · simp at hal
-      · generalize d.pl.alloc (s.length + d.strOverhead) = q at hal
+      · split at hal
+        · simp only [Prod.mk.injEq, true_and] at hal; subst hal; simp at hok
+        generalize d.pl.alloc (s.length + d.strOverhead) = q at hal
         obtain ⟨ok, pl⟩ := q
         simp only at hal
         split at hal
